@@ -1041,7 +1041,8 @@ func init() {
 		// inductive core: one real client step from arbitrary counters (the harnesses of C03/C04)
 		for tcp := int64(0); tcp < 1; tcp++ {
 			for ready := int64(0); ready < 2; ready++ {
-				out = append(out, Inst{Pkg: "knx", Fn: "HarnessC04Step", Args: []int64{tcp, ready, 0}, Note: "inductive core: receiver step from every counter value"})
+				out = append(out, Inst{Pkg: "knx", Fn: "HarnessC04Step", Args: []int64{tcp, ready, 0}, Note: "inductive core: receiver step from every counter value"},
+					Inst{Pkg: "knx", Fn: "HarnessC04Step", Args: []int64{tcp, ready, 1}, Note: "the same with the acknowledgement's transmission failing (an unacknowledged telegram is repeated by the gateway and must not be accepted twice)"})
 			}
 		}
 		out = append(out, Inst{Pkg: "knx", Fn: "HarnessC03Exchange", Args: []int64{2, 0, -1, 0}, Note: "inductive core: sender exchange from every counter value"})
